@@ -338,12 +338,36 @@ class World(object):
         for m in self.uuid_modules:
             if m in sys.modules:
                 self.patch(m, 'uuid', fu)
+        self._constants = self._snapshot_constants()
         return self
+
+    @staticmethod
+    def _snapshot_constants():
+        """module-level Reply objects of the library (pre-defined responses shared by every session of the process)"""
+        mod = sys.modules.get('slimta.smtp.reply')
+        out = []
+        if mod is not None:
+            for k, v in sorted(vars(mod).items()):
+                if isinstance(v, mod.Reply):
+                    out.append((k, v, dict(vars(v))))
+        return out
+
+    def changed_constants(self):
+        """-> [(name, before, after)] for every shared pre-defined Reply that was modified during this execution;
+        the objects are restored (a later execution must not inherit the modification)."""
+        out = []
+        for k, v, saved in getattr(self, '_constants', ()):
+            if vars(v) != saved:
+                out.append((k, '%s %s' % (saved.get('_code'), saved.get('_message')), '%s %s' % (v._code, v._message)))
+                vars(v).clear()
+                vars(v).update(saved)
+        return out
 
     def __exit__(self, et, ev, tb):
         try:
             self.teardown()
         finally:
+            self.changed_constants()
             Greenlet.remove_spawn_callback(self._on_spawn)
             for mod, name, val in reversed(self._saved):
                 setattr(mod, name, val)
